@@ -97,7 +97,8 @@ void fpBin(const json &in, json &out) {
           cmpSpline(acc, a * b, in.at("E").at("mul"), in.at("S").at("mul"), "mul");
           try {  // second pass with full-mantissa coefficients (see vh_fp.h)
             const Grid<Rat> gr = mkGrid<Rat>(ja.at("g"));
-            const auto ap = perturbedSpline(a, caseKey(in)), bp = perturbedSpline(b, caseKey(in) + 7);
+            const auto ap = perturbedSpline(a, caseKey(in));
+            const auto bp = perturbedSpline(b, caseKey(in) + 7);
             const auto ar = exactTwin(ap, gr);
             const auto br = exactTwin(bp, gr);
             cmpSplineTwin(acc, ap + bp, ar + br, in.at("S").at("add"), "padd");
